@@ -1,6 +1,7 @@
 /- Line protocol for the `vfy` family: the whole-verifier model against the real `verify`.
 
-  vfy <desc> <pub inputs> <acceptable options> <proof hex>
+  vfy [<class>] <desc> <pub inputs> <acceptable options> <proof hex>
+      class     optional name of the mutation class (ignored by the model; known-finding keys use it)
       desc      the AIR description (same syntax as the c01 family, lean/Wf/Drv/AirDesc.lean)
       pub       claimed assertion values: lists separated by `|`, values by `/` (`_` = empty list,
                 `-` = no lists)
@@ -8,8 +9,8 @@
                 | conj:<bits> | proven:<bits>
   answer: ok | err <VerifierError variant>[:detail] | PANIC <source file of the panic> | unmodelled
 
-The hasher is the TEST hasher `VH` of harness/src/vmodel.rs (FNV-style folds over 64-bit words,
-re-implemented here word for word); base field f64, extension degree 1. -/
+The hasher is the TEST hasher `VH` of harness/src/vmodel.rs (folds of a splitmix64 step over 64-bit words,
+re-implemented here word for word); base field f64 with its quadratic and cubic extensions. -/
 import Wf.Model.Verifier
 import Wf.Drv.AirDesc
 namespace Wf.Drv.Vfy
@@ -17,9 +18,12 @@ open Wf Wf.Verifier
 
 /-! ### the test hasher -/
 
+/-- one absorption step: the splitmix64 finalizer of `(h ^ w) + golden ratio` -/
 @[inline] def step (h w : UInt64) : UInt64 :=
-  let m := (h ^^^ w) * 0x100000001b3
-  m ^^^ (m >>> 29)
+  let z := (h ^^^ w) + 0x9E3779B97F4A7C15
+  let z := (z ^^^ (z >>> 30)) * 0xBF58476D1CE4E5B9
+  let z := (z ^^^ (z >>> 27)) * 0x94D049BB133111EB
+  z ^^^ (z >>> 31)
 
 def iv : UInt64 := 0xcbf29ce484222325
 
@@ -72,6 +76,7 @@ def parseAcceptable (s : String) : Option Security.Acceptable :=
 
 def deserClass : DeserSite → String
   | .lde => "lde"
+  | .queries => "queries"
   | .nq0 => "nq0"
   | .mainQueries => "main-queries"
   | .auxQueries => "aux-queries"
@@ -127,12 +132,17 @@ def answer : R Unit → String
     | .abort s => "PANIC " ++ abortFile s
     | .unmodelled => "unmodelled"
 
-def handle : List String → String
+def handle1 : List String → String
   | [desc, pub, acc, hex] =>
     match parseDesc desc, parsePub pub, parseAcceptable acc, parseHex hex with
-    | some d, some pub, some acc, some bytes => answer (verifyModel vh paramsF64 d pub acc bytes)
+    | some d, some pub, some acc, some bytes => answer (verifyModel vh f64Fields d pub acc bytes)
     | _, _, _, _ => "bad-op"
   | _ => "bad-op"
+
+/-- an optional first word names the mutation class (`vfy <class> <desc> ..`); the model ignores it -/
+def handle : List String → String
+  | [_cls, desc, pub, acc, hex] => handle1 [desc, pub, acc, hex]
+  | ws => handle1 ws
 
 end Wf.Drv.Vfy
 
